@@ -6,6 +6,7 @@ S: the property restated independently in Python on the implementation's outputs
 K: extracted Gallina model (coq/Model/Surgery.v) vs implementation, exact arrays."""
 from lib import *  # noqa
 import gen
+import argforms as AF
 from koala.lattice import Lattice, LatticeException, cut_boundaries, permute_vertices
 from koala.graph_utils import remove_vertices, remove_trailing_edges, reorder_vertices
 
@@ -33,20 +34,48 @@ def arr(lat):
             np.asarray(lat.edges.crossing).astype(int).reshape(-1, 2))
 
 
-def impl_op(lat, op):
+# ---- argument forms (argforms.py): container / dtype / memory layout / order and repeats of an index list are not part of the
+# SET of vertices (resp. the permutation, the pair of booleans) they denote.  Only what is handed to koala is re-formed (chosen
+# from the content of the operation and the lattice size, so a failure replays); the model and the restatement get op[...] as is.
+AF_INT_ARRAYS = ["int64", "int8", "uint8", "int16", "uint16", "int32", "uint32", "intp", "int64+readonly", "int32+strided", "uint8+strided"]
+AF_FORMS = {"remove_vertices.indices": AF_INT_ARRAYS + ["int64+list"],
+            "permute_vertices.ordering": AF_INT_ARRAYS + ["int64+list"],
+            "reorder_vertices.permutation": AF_INT_ARRAYS,
+            "cut_boundaries.boundary_to_cut": ["bool+list", "bool+tuple", "bool", "bool+readonly", "bool+strided", "bool+npscalars"]}   # npscalars: [np.True_, np.False_]
+AF_EXCLUDED = {
+    ("remove_vertices.indices", "tuple / set / float array"): "type hint np.ndarray 'N array of indices'; a tuple is one index per axis for numpy (IndexError; the EMPTY tuple selects everything: all vertices removed)",
+    ("remove_vertices.indices", "np.array([]) (empty, float64)"): "numpy's default empty array is float64: IndexError 'arrays used as indices must be of integer type' -- arguable (it is an np.ndarray naming no vertex), reported to the lead, kept out of the generator",
+    ("permute_vertices.ordering", "tuple"): "type hint npt.NDArray[np.integer]; tuple = one index per axis (IndexError)",
+    ("reorder_vertices.permutation", "list / tuple"): "type hint np.ndarray; permutation[edges] needs an array (TypeError)",
+    ("cut_boundaries.boundary_to_cut", "integers other than 0/1"): "documented as list[Bool]; 1 - flag*2 is non-zero",
+}
+
+
+def arg_forms(res, arg, values, *key):
+    for (a, f), why in AF_EXCLUDED.items():
+        AF.exclude(res, a, f, why)
+    if arg == "remove_vertices.indices" and len(values) >= 2 and AF.pick([0, 1, 2], "dup", list(values), *key) == 0:
+        values = list(values)[::-1] + list(values)[:2]          # same set: other order, two repeats
+        AF.note(res, arg + "(order)", "reversed+2 repeats")
+    base = np.bool_ if arg.startswith("cut") else np.int64
+    return AF.choose(res, arg, values, AF_FORMS[arg], *key, base=base)
+
+
+def impl_op(lat, op, res):
     """returns (output Lattice, report or None)"""
     k = op["op"]
+    size = [lat.n_vertices, lat.n_edges]
     if k == "cut":
-        return cut_boundaries(lat, list(op["b"])), None
+        return cut_boundaries(lat, arg_forms(res, "cut_boundaries.boundary_to_cut", op["b"], size)), None
     if k == "rmv":
-        out, rep = remove_vertices(lat, np.array(op["idx"], dtype=int), return_edge_removal=True)
+        out, rep = remove_vertices(lat, arg_forms(res, "remove_vertices.indices", op["idx"], size), return_edge_removal=True)
         return out, [int(x) for x in rep]
     if k == "trail":
         return remove_trailing_edges(lat), None
     if k == "perm":
-        return permute_vertices(lat, np.array(op["ord"], dtype=int)), None
+        return permute_vertices(lat, arg_forms(res, "permute_vertices.ordering", op["ord"], size)), None
     if k == "reord":
-        return reorder_vertices(lat, np.array(op["perm"], dtype=int)), None
+        return reorder_vertices(lat, arg_forms(res, "reorder_vertices.permutation", op["perm"], size)), None
     raise ValueError(k)
 
 
@@ -509,7 +538,7 @@ def evaluate(ctx, cases, label, plaquette_budget=None):
             k = op["op"]
             one = {"lattice": c["lattice"], "pre": c.get("pre", []), "ops": [op]}
             try:
-                out_lat, rep = impl_op(lat, op)
+                out_lat, rep = impl_op(lat, op, res)
                 out = arr(out_lat)
             except Exception as e:
                 res.count(fam + "/" + k)
@@ -547,7 +576,7 @@ def evaluate(ctx, cases, label, plaquette_budget=None):
             if not bad and k == "cut":
                 bx, by = op["b"]
                 try:
-                    again = arr(cut_boundaries(out_lat, [bx, by]))
+                    again = arr(cut_boundaries(out_lat, arg_forms(res, "cut_boundaries.boundary_to_cut", [bx, by], "again", len(edges))))
                     if not all(np.array_equal(a, b) for a, b in zip(again, out)):
                         bad.append(("cut:not-idempotent", f"cut {op['b']} applied twice differs from once"))
                     if bx and by:
